@@ -290,6 +290,55 @@ mod verif_bounded {
         expect(label, scen, "prune_expired_snapshots(created_at of A + 1) removes something", "SQLite", s.prune_expired_snapshots(a_created + 1).unwrap() > 0, true);
         expect(label, scen, "nothing listed afterwards", "SQLite", s.list_group_snapshots(&gid(1)).unwrap().len(), 0);
     }
+    // C20 (restart): a fresh EpochSnapshotManager over the SQLite back end -- what a restart leaves -- must read the stored snapshots of a
+    // group back in the order they were taken, ALSO when several were taken within one wall-clock second (a backlog of commits caught up
+    // quickly) and their names do not sort that way (epoch 10 sorts before 8 and 9; a larger commit id may belong to the older commit).
+    // Otherwise the next commit evicts a recent snapshot instead of the oldest and a rollback releases the wrong ones.
+    // Scope (quick): retention 3, three same-second snapshots over the epoch triples {8,9,10} and {1,2,3} with ascending and descending
+    // commit ids, then (after the restart) one more commit resp. one rollback. Thorough adds {98,99,100}, retention 2 and 4.
+    #[test]
+    fn restart_reads_same_second_snapshots_back_in_the_order_taken() {
+        use crate::epoch_snapshots::EpochSnapshotManager;
+        let label = "sqlite_bounded.restart_reads_same_second_snapshots_back_in_the_order_taken";
+        let thorough = std::env::var("VERIF_TIER").as_deref() == Ok("thorough");
+        let cid = |n: u64| EventId::from_hex(&format!("{:064x}", n)).unwrap();
+        let epochs_of = |s: &MdkSqliteStorage| -> Vec<u64> {
+            let mut v: Vec<u64> = s.list_group_snapshots(&gid(1)).unwrap().into_iter().map(|(name, _)| name.split('_').nth(2).unwrap().parse::<u64>().unwrap()).collect();
+            v.sort(); v
+        };
+        // the first run: `n` commits of consecutive epochs from `first`, all within one second (retried until the stored stamps agree)
+        let first_run = |first: u64, n: u64, descending_ids: bool, retention: usize| -> MdkSqliteStorage {
+            for _ in 0..40 {
+                let s = MdkSqliteStorage::new_unencrypted(":memory:").expect("sqlite in memory");
+                s.save_group(group(1, 1)).unwrap();
+                let manager = EpochSnapshotManager::new(retention);
+                while std::time::SystemTime::now().duration_since(std::time::UNIX_EPOCH).unwrap().subsec_millis() > 500 { std::thread::sleep(std::time::Duration::from_millis(20)); }
+                for k in 0..n { let e = first + k; manager.create_snapshot(&s, &gid(1), e, &cid(if descending_ids { 1000 - e } else { e }), 5000 + e).unwrap(); }
+                let stamps: BTreeSet<u64> = s.list_group_snapshots(&gid(1)).unwrap().into_iter().map(|x| x.1).collect();
+                if stamps.len() == 1 { return s; }
+            }
+            panic!("could not take the snapshots within one second (not a counterexample)");
+        };
+        let mut triples: Vec<u64> = vec![8, 1];
+        let mut retentions: Vec<usize> = vec![3];
+        if thorough { triples.push(98); retentions = vec![2, 3, 4]; }
+        for &retention in &retentions { for &first in &triples { for descending_ids in [false, true] {
+            let n = retention as u64;
+            let scen = format!("retention {retention}; first run: commits of epochs {first}..={} applied within one second (commit ids {}); restart", first + n - 1, if descending_ids { "descending" } else { "ascending" });
+            // (a) after the restart one more commit: the oldest snapshot goes, the most recent `retention` stay
+            let s = first_run(first, n, descending_ids, retention);
+            let manager = EpochSnapshotManager::new(retention);
+            manager.create_snapshot(&s, &gid(1), first + n, &cid(first + n), 5000 + first + n).unwrap();
+            expect(label, &format!("{scen}; one more commit (epoch {})", first + n), "epochs of the stored snapshots", "SQLite", epochs_of(&s), ((first + 1)..=(first + n)).collect::<Vec<_>>());
+            // (b) after the restart a rollback to the second snapshot: it is consumed and every later one released, the older one kept
+            if retention >= 3 {
+                let s = first_run(first, n, descending_ids, retention);
+                let manager = EpochSnapshotManager::new(retention);
+                manager.rollback_to_epoch(&s, &gid(1), first + 1).unwrap();
+                expect(label, &format!("{scen}; rollback to epoch {}", first + 1), "epochs of the stored snapshots", "SQLite", epochs_of(&s), vec![first]);
+            }
+        }}}
+    }
     // C02 / C18 / C07: a rollback of a group destroys no stored message, dedup record or welcome (it restores the group's MLS state,
     // record, relays and per-epoch secrets only). Scope: 2 groups with 3 messages / 2 dedup records each and one welcome, one rollback.
     #[test]
